@@ -345,21 +345,36 @@ func (c *compiler) evalUpdateIndex(left, index, value interface{}) error {
 	rv := reflect.ValueOf(left)
 	switch rv.Kind() {
 	case reflect.Map:
-		rv.SetMapIndex(reflect.ValueOf(index), reflect.ValueOf(value))
+		mt := rv.Type()
+		if rv.IsNil() {
+			return fmt.Errorf("cannot assign to an entry of a nil map (%T)", left)
+		}
+
+		kv, err := assignableValue(index, mt.Key())
+		if err != nil {
+			return fmt.Errorf("cannot use %v as %s value in map index", index, mt.Key())
+		}
+
+		ev, err := assignableValue(value, mt.Elem())
+		if err != nil {
+			return fmt.Errorf("cannot use %v as %s value in assignment", value, mt.Elem())
+		}
+
+		rv.SetMapIndex(kv, ev)
 	case reflect.Array, reflect.Slice:
 		if i, ok := index.(int); ok {
 			if i < 0 || rv.Len()-1 < i {
 				err = fmt.Errorf("array index out of bounds, got index %d, while array size is %v", i, rv.Len())
 			} else {
 				elemType := reflect.TypeOf(left).Elem()
-				if elemType.Kind() != reflect.Interface {
-					t := reflect.ValueOf(value).Type()
-					if elemType != t {
-						err = fmt.Errorf("cannot use '%v' (untyped %s constant) as %s value in assignment", value, t, elemType)
-					}
-				}
-				if err == nil {
-					rv.Index(i).Set(reflect.ValueOf(value))
+				ev, aerr := assignableValue(value, elemType)
+				switch {
+				case aerr != nil:
+					err = fmt.Errorf("cannot use '%v' (untyped %T constant) as %s value in assignment", value, value, elemType)
+				case !rv.Index(i).CanSet():
+					err = fmt.Errorf("cannot assign to an element of %T (not addressable)", left)
+				default:
+					rv.Index(i).Set(ev)
 				}
 			}
 		} else {
@@ -370,6 +385,22 @@ func (c *compiler) evalUpdateIndex(left, index, value interface{}) error {
 	}
 
 	return err
+}
+
+// assignableValue returns v as a reflect.Value that can be stored in a
+// location of type t: nil becomes t's zero value, anything else must be
+// assignable to t.
+func assignableValue(v interface{}, t reflect.Type) (reflect.Value, error) {
+	if v == nil {
+		return reflect.Zero(t), nil
+	}
+
+	rv := reflect.ValueOf(v)
+	if !rv.Type().AssignableTo(t) {
+		return reflect.Value{}, fmt.Errorf("%T is not assignable to %s", v, t)
+	}
+
+	return rv, nil
 }
 
 func (c *compiler) evalAccessIndex(left, index interface{}, node *ast.IndexExpression) (interface{}, error) {
